@@ -112,6 +112,8 @@ type c12Case struct {
 	// mounts that may hold a key with an empty path segment ("a//b", "d/", "/"): Core.moveStorage does not terminate on
 	// those (see REPORT), so they are only remounted inside their namespace
 	emptySeg map[int]bool
+	// sealable namespaces whose own key shares were not supplied since a seal (of them or of an ancestor) last covered them
+	pending map[int]bool
 	cubbyNs     map[string]int // cubbyhole mount uuid -> ns ordinal
 }
 
@@ -208,24 +210,58 @@ func (k *c12Case) addNs(path string, sealable bool) {
 	k.nss = append(k.nss, n)
 	k.out.Op("ok", "ns", vh.HexS(path), c12B(sealable))
 	if sealable {
+		k.pending[n.ord] = true
 		k.setSeal(n.ord, false) // created sealed: unseal for the set-up
 	}
 	k.nsCtx(n.ord)
 	k.refreshMounts()
 }
 
-func (k *c12Case) setSeal(i int, seal bool) {
+// sealOp seals / unseals (with the namespace's OWN key share) namespace i through the parent namespace's
+// sys/namespaces/<name>/(un)seal endpoint and reports the outcome class; `pending` is the harness's own record of
+// "the own shares of this namespace were not supplied since a seal last covered it".
+func (k *c12Case) sealOp(i int, seal bool) string {
 	n := k.nss[i]
 	root := k.toks[0].token
-	name := strings.TrimSuffix(n.path, "/")
-	if seal {
-		resp, err, _ := k.do(vhRootCtx(), logical.UpdateOperation, "sys/namespaces/"+name+"/seal", root, nil)
-		k.must("seal "+n.path, resp, err)
-	} else {
-		resp, err, _ := k.do(vhRootCtx(), logical.UpdateOperation, "sys/namespaces/"+name+"/unseal", root, map[string]any{"key": n.share})
-		k.must("unseal "+n.path, resp, err)
+	parent, name := "", strings.TrimSuffix(n.path, "/")
+	if j := strings.LastIndex(name, "/"); j >= 0 {
+		parent, name = name[:j+1], name[j+1:]
 	}
-	k.out.Op("ok", "sealns", vh.HexS(n.path), c12B(seal))
+	var resp *logical.Response
+	var err error
+	if seal {
+		resp, err, _ = k.do(vhRootCtx(), logical.UpdateOperation, parent+"sys/namespaces/"+name+"/seal", root, nil)
+	} else {
+		resp, err, _ = k.do(vhRootCtx(), logical.UpdateOperation, parent+"sys/namespaces/"+name+"/unseal", root, map[string]any{"key": n.share})
+	}
+	cl := c12Class(resp, err)
+	if cl == "ok" && !seal && resp != nil && resp.Data != nil {
+		if sl, ok := resp.Data["sealed"].(bool); ok && sl {
+			cl = "ok:stillsealed"
+		}
+	}
+	if cl == "ok" {
+		if seal {
+			for _, m := range k.nss {
+				if m.sealable && strings.HasPrefix(m.path, n.path) {
+					k.pending[m.ord] = true
+				}
+			}
+		} else {
+			k.pending[i] = false
+		}
+	}
+	if os.Getenv("VERIF_DEBUG_C12") != "" && cl != "ok" {
+		fmt.Fprintf(os.Stderr, "c12: sealns %s seal=%v => %s (%v %v)\n", n.path, seal, cl, err, resp)
+	}
+	k.out.Op(cl, "sealns", vh.HexS(n.path), c12B(seal))
+	return cl
+}
+
+func (k *c12Case) setSeal(i int, seal bool) {
+	if cl := k.sealOp(i, seal); cl != "ok" {
+		k.t.Fatalf("c12 set-up seal=%v of %s: %s", seal, k.nss[i].path, cl)
+	}
 }
 
 // refreshMounts re-reads the core's mount table so that every logical/<uuid>/ key can be attributed.
@@ -443,6 +479,15 @@ func (k *c12Case) request(tk *c12Tok, ctxNs int, hdr, path, opn, skey string) {
 		}
 		for _, o := range ops {
 			nsi, rest, known := k.splitNs(o.Key)
+			if known && nsi > 0 {
+				// no request may touch ANY storage (mount data or system area) of a namespace that lies at or below a namespace
+				// whose own key shares were not supplied since a seal last covered it
+				for _, a := range k.nss {
+					if a.sealable && k.pending[a.ord] && strings.HasPrefix(k.nss[nsi].path, a.path) {
+						setViol(0, fmt.Sprintf("storage of namespace %q touched (%s %s) although the own key shares of %q were not supplied since it was last sealed#sealed-namespace-storage-touched", k.nss[nsi].path, o.Kind, rest, a.path))
+					}
+				}
+			}
 			seg := strings.SplitN(rest, "/", 3)
 			if known && (seg[0] == "logical" || seg[0] == "auth") && len(seg) == 3 {
 				uuid, rel := seg[1], seg[2]
@@ -537,8 +582,8 @@ func TestVerifC12Confine(t *testing.T) {
 	for ci := 0; ci < cases; ci++ {
 		out.Reset()
 		r := rng.Fork(uint64(ci))
-		k := &c12Case{t: t, out: out, mountByUUID: map[string]*c12Mount{}, cubbyNs: map[string]int{}, emptySeg: map[int]bool{}}
-		k.unsafe = (ci/4)%2 == 1
+		k := &c12Case{t: t, out: out, mountByUUID: map[string]*c12Mount{}, cubbyNs: map[string]int{}, emptySeg: map[int]bool{}, pending: map[int]bool{}}
+		k.unsafe = (ci/5)%2 == 1
 		k.p = vhNewPhys(t)
 		c, _, root := vhNewCore(t, k.p, nil, func(conf *CoreConfig) {
 			conf.LogicalBackends["c12rec"] = c12RecFactory
@@ -550,7 +595,15 @@ func TestVerifC12Confine(t *testing.T) {
 		k.regToken(0, "root", root)
 		// namespace tree
 		sealIdx := -1
-		switch ci % 4 {
+		nested := ci%5 == 4
+		switch ci % 5 {
+		case 4:
+			// a separately sealed namespace NESTED in a separately sealed namespace
+			k.addNs("n1/", false)
+			k.addNs("out/", true)
+			k.addNs("out/in/", true)
+			k.addNs("out/in/x/", false)
+			k.addNs("out/y/", false)
 		case 3:
 			// same-named chain: a request path naming a namespace WITHOUT its trailing slash
 			k.addNs("t/", false)
@@ -588,7 +641,7 @@ func TestVerifC12Confine(t *testing.T) {
 		if r.Chance(50) {
 			k.addMount(0, "c/")
 		}
-		if ci%4 == 3 {
+		if ci%5 == 3 {
 			// (a mount t/ in t/ or t/t/ would collide with the child namespace: MountConflict refuses it)
 			k.addMount(3, "t/")
 		}
@@ -609,7 +662,7 @@ func TestVerifC12Confine(t *testing.T) {
 			unsealAt = sealAt + nreq/4 + r.Intn(nreq/6)
 		}
 		remountAt := -1
-		if ci%4 == 0 || ci%4 == 2 { // (not in the same-named chain: MountConflict reports a false "path in use at t/" there)
+		if ci%5 == 0 || ci%5 == 2 { // (not in the same-named chain: MountConflict reports a false "path in use at t/" there)
 			remountAt = nreq/4 + r.Intn(nreq/4)
 		}
 		for qi := 0; qi < nreq; qi++ {
@@ -621,6 +674,10 @@ func TestVerifC12Confine(t *testing.T) {
 					dstNs = r.Intn(len(k.nss))
 				}
 				k.remount(mi, dstNs, "mv/")
+			}
+			if nested && r.Chance(9) {
+				// seal / unseal (own shares) of out/ (2) or out/in/ (3) in any order; refusals are outcomes, not errors
+				k.sealOp(2+r.Intn(2), r.Chance(50))
 			}
 			if qi == sealAt {
 				k.setSeal(sealIdx, true)
@@ -638,6 +695,9 @@ func TestVerifC12Confine(t *testing.T) {
 			}
 			if sealedNow && r.Chance(40) {
 				tgt = sealIdx + r.Intn(2)
+			}
+			if nested && r.Chance(50) {
+				tgt = 2 + r.Intn(4)
 			}
 			// how the namespace is addressed: through the path, the header, the context, or a mix
 			tpath := k.nss[tgt].path
@@ -715,7 +775,7 @@ func TestVerifC12Confine(t *testing.T) {
 					path += "/t"
 				}
 			}
-			if mp == "m3/" && ci%4 == 3 {
+			if mp == "m3/" && ci%5 == 3 {
 				path = prefix + "t/raw/a"
 				if r.Chance(30) {
 					path = prefix + "t/"
